@@ -89,6 +89,9 @@ def transport_factories(kind):
 
 def make_ser(name, batched=False):
     from autobahn.wamp import serializer as S
+    if name == "json-hex":
+        # a serializer object configured with a non-default option: both ends must use it as configured
+        return S.JsonSerializer(batched=batched, use_binary_hex_encoding=True)
     cls = {"json": S.JsonSerializer, "cbor": S.CBORSerializer, "msgpack": S.MsgPackSerializer, "ubjson": S.UBJSONSerializer}[name]
     return cls(batched=batched)
 
